@@ -77,7 +77,8 @@ def generate(chk, name, constants, wd, simulate=None, depth=None, timeout=900, c
     return total, dest, n
 
 
-def generate_feed(chk, name, wd, candidates, procs=8, maxnodes=14, maxdepth=5, nd=2, nr=3, timeout=900):
+def generate_feed(chk, name, wd, candidates, procs=8, maxnodes=14, maxdepth=5, nd=2, nr=3, timeout=900,
+                  profile=None):
     """Long random behaviours: seeded candidate operations (docfeed.py) filtered, applied and
     annotated with the expected observation by TLC (spec/DocumentFeed.tla).
     Returns (TlcResult, list of stream files, number of events)."""
@@ -89,7 +90,7 @@ def generate_feed(chk, name, wd, candidates, procs=8, maxnodes=14, maxdepth=5, n
     feeds = []
     for i in range(procs):
         fp = os.path.join(wd, f"{name}-feed{i}.ndjson")
-        docfeed.write_feed(fp, vlib.seed() * 1000 + i, candidates // procs, nd=nd, nr=nr)
+        docfeed.write_feed(fp, vlib.seed() * 1000 + i, candidates // procs, nd=nd, nr=nr, profile=profile)
         feeds.append(fp)
     with ThreadPoolExecutor(max_workers=procs) as ex:
         futs = [ex.submit(vlib.run_tlc, "DocumentFeed", cfg, os.path.join(wd, f"{name}-p{i}"), workers=1,
